@@ -21,11 +21,18 @@
                      contract-respecting events (the node answers the outstanding RPCs, pending parts resolve, the pay command
                      ends, time passes) in which that HTLC is answered (C06_every_held_htlc_is_answered): no reachable state is a
                      trap, whatever happened before (faults, crashes, overtaking HTLCs, several lifecycles).
-   PARTIAL: "eventually" is AG EF (a continuation exists from everywhere), not AF over all fair schedules; RPC errors on reads are
+     no divergence — and on EVERY schedule the plugin and the node can take only a bounded number of state-changing internal
+                     steps between two events of the environment (C06_no_internal_divergence): it cannot keep itself busy for ever.
+     every run     — C06_progress_runs_are_bounded + C06_at_rest_means_all_answered: a run without new work in which every event
+                     does something is bounded, and it can end only when no HTLC is held: every schedule on which the environment
+                     keeps making progress answers every held HTLC (AF relative to the environment's progress).
+   PARTIAL: that the environment does keep making progress (the pay command ends, pending parts resolve, the clock advances)
+   is the environment's part — lightningd's and the network's — and is a hypothesis of the last two theorems, not proved; RPC errors on reads are
    the known-finding class kf_read_error (stored Pending + error from wait_payment reaches a todo!(): KF-A), excluded by
    [hist_wf]; thread scheduling and real time are runtime (the correspondence runs the real handler deterministically). *)
 From Tramp Require Import Model.Base Model.Fee Model.Classify Model.Node Model.Provider Model.ProviderSys Model.Sys.
 From Tramp Require Import Proofs.SysBasics Proofs.SysShape Proofs.SysTheorems Proofs.SysTimers Proofs.SysReach Proofs.SysCalls Proofs.SysNode Proofs.SysSafety Proofs.SysLive.
+From Tramp Require Import Proofs.SysTerm.
 
 Theorem C06_held_or_answered : forall c s h,
   (exists en, entry_ (pl (fst (step c s (EvHtlc h)))) = Some en /\ In h (listeners en)) \/
@@ -73,6 +80,40 @@ Theorem C06_every_held_htlc_is_answered : forall c n t0 h0 a0 evs en h,
   let s := after c n t0 h0 a0 evs in
   entry_ (pl s) = Some en -> In h (listeners en) -> Answered c (hid h) s.
 Proof. intros c n t0 h0 a0 evs en h Hn Hwf. exact (held_htlc_is_answered c _ en h (after_wreach true c n t0 h0 a0 evs Hn Hwf)). Qed.
+
+(* no internal divergence, on EVERY schedule: from any reachable state, a run made only of internal events (the node answering an
+   RPC, a reply reaching its lifecycle, a lifecycle polling its queues) in which every step changes the state has at most
+   [phi s] steps — a potential (stage of every lifecycle + weight of every outstanding call) strictly decreases. So the plugin
+   cannot chatter with the node for ever instead of answering: after finitely many steps it is waiting for the environment
+   (its timer, the pay command, a pending part) — where C06_never_stuck and C06_every_held_htlc_is_answered take over. *)
+Theorem C06_no_internal_divergence : forall c s evs,
+  reachable c s -> forallb internal evs = true ->
+  (forall k e, nth_error evs k = Some e -> seffective c (srun c s (firstn k evs)) e) ->
+  (length evs <= phi s)%nat.
+Proof. exact reachable_internal_runs_are_bounded. Qed.
+
+(* ... and the environment's own progress included. Take any run from a reachable state that brings NO NEW WORK — no HTLC
+   arriving, no part created by the pay command, no new block, no crash — and in which every event does something: the node
+   answers an RPC, a reply is delivered, a lifecycle polls, a pending part resolves, a running pay command ends, or time
+   passes while some lifecycle sits on its timer. Such a run has at most [Phi c s] events (a potential: lifecycle stages +
+   outstanding calls + pending parts + time left on the timers) ... *)
+Theorem C06_progress_runs_are_bounded : forall c s evs,
+  reachable c s ->
+  (forall k e, nth_error evs k = Some e -> progress_ev (srun c s (firstn k evs)) e = true /\ seffective c (srun c s (firstn k evs)) e) ->
+  (length evs <= Phi c s)%nat.
+Proof. intros c s evs Hr. apply progress_runs_are_bounded, reachable_InvC, Hr. Qed.
+
+(* ... and it can only end — no contract-respecting progress event changes the state any more — when no HTLC is held: every
+   held HTLC has been answered. So on EVERY schedule on which the environment keeps making progress (the node answers, the
+   pay command ends, pending parts resolve, time passes) every held HTLC is answered after finitely many steps: AF, not
+   only EF. (Level true: no read RPC answered with an error — the known-finding class kf_read_error.) *)
+Theorem C06_at_rest_means_all_answered : forall c n t0 h0 a0 evs,
+  node_ok n -> hist_wf true c (sys_start n t0 h0 a0) evs ->
+  let s := after c n t0 h0 a0 evs in
+  (forall ev, progress_ev s ev = true -> ev_wf true s ev -> ~ seffective c s ev) -> entry_ (pl s) = None.
+Proof.
+  intros c n t0 h0 a0 evs Hn Hwf s. exact (at_rest_means_all_answered c s (after_wreach true c n t0 h0 a0 evs Hn Hwf)).
+Qed.
 
 (* non-vacuity: an HTLC is held, its lifecycle awaits the live state fetch *)
 Example C06_nonvacuous :
